@@ -1,0 +1,27 @@
+// SPDX-License-Identifier: Apache-2.0
+// Copyright Authors of Cilium
+
+//go:build verif
+
+package internal
+
+import "sync/atomic"
+
+var verifLockHook atomic.Pointer[func(phase string, seq uint64)]
+
+// SetVerifLockHook installs the function called by SortableMutexes.Lock
+// before ("acquire") and after ("acquired") each individual mutex is locked
+// and once all are ("done", seq 0), and by Unlock ("unlock") before each is released.
+func SetVerifLockHook(fn func(phase string, seq uint64)) {
+	if fn == nil {
+		verifLockHook.Store(nil)
+		return
+	}
+	verifLockHook.Store(&fn)
+}
+
+func verifLock(phase string, seq uint64) {
+	if fn := verifLockHook.Load(); fn != nil {
+		(*fn)(phase, seq)
+	}
+}
